@@ -106,6 +106,23 @@ def r10_2(ctx):
                     okrep[nm] = True
                     pieces[nm] = val
         r.ob("template:both-replace-the-token", all(okrep.values()), f.site, "regex and capture both replace marker.format(): %s" % okrep)
+        # on every path the replacement text is the formatted (wrapped) expression, never the bare one
+        unwrapped = set()
+        n_rep = 0
+        for p in lp.iteration_paths(s):
+            inits = {e[1]: e[3] for e in p.events if e[0] in ("init", "set")}
+            for e in p.events:
+                if e[0] == "call" and e[1] == "str::replace":
+                    tgt, pat, val = e[2][0], e[2][1], e[2][2]
+                    nm = f.local_name(tgt[1]) if tgt[0] == "local" else None
+                    if nm not in ("regex", "capture"):
+                        continue
+                    n_rep += 1
+                    v = inits.get(val[1], val) if val[0] == "local" else val
+                    if not mentions(v, lambda x: x[0] == "call" and x[1].endswith("fmt::format")):
+                        unwrapped.add("%s <- %s" % (nm, show(v, f)[:80]))
+        r.ob("template:always-wrapped", not unwrapped and n_rep >= 2, f.site,
+             "every substitution inserts the formatted group ((?:expr) / (?P<name>expr))" if not unwrapped else "a marker expression is inserted without its group wrapper on some path: %s (a top-level `|` in the expression then splits the whole template)" % sorted(unwrapped))
         # the format pieces of the two format! calls
         tpls = format_templates(f)
         r.note("format templates of MarkerString::new: %s" % tpls)
